@@ -211,15 +211,19 @@ def crash_sig(rec, sclass):
     return crash_signature(rec, sclass)
 
 
-_BKM_RX = re.compile(r"<businessKnowledgeModel\b[^>]*\bname=\"([^\"]+)\"(.*?)</businessKnowledgeModel>", re.S)
+# (the XML reader accepts a document that ends inside an element, so the closing tag may be missing)
+_BKM_RX = re.compile(r"<businessKnowledgeModel\b[^>]*\bname=\"([^\"]+)\"(.*?)(?:</businessKnowledgeModel>|\Z)", re.S)
 
 
 def self_invoking_knowledge_model(xml):
     """name of a knowledge model whose own logic invokes it by name (recursion written in the model, not a requirement cycle)"""
     for m in _BKM_RX.finditer(xml or ""):
         name, body = m.group(1), m.group(2)
-        if re.search(r"<text>[^<]*\b%s\s*\(" % re.escape(name), body):
-            return name
+        # the name the logic sees is the one of the knowledge model's variable (a fault may have changed one of the two)
+        names = [name] + re.findall(r"<variable\b[^>]*\bname=\"([^\"]+)\"", body)
+        for n in names:
+            if re.search(r"<text>[^<]*(?<![\w])%s\s*\(" % re.escape(n), body):
+                return n
     return None
 
 
